@@ -62,6 +62,13 @@ def _scenario(bits, acl_pos, d_up, bw, perm):
         # the dns-client is declared with its own server, different from the host's node-level dns_server
         assert c1["services"][0]["type"] == "dns-client" and c1.get("dns_server")
         c1["services"][0] = dict(c1["services"][0], options=dict(c1["services"][0].get("options", {}), dns_server="192.168.2.77"))
+    if bits.get("ftpopt"):
+        # an ftp-client with its own option declared BEFORE the database-service of the same node (the database service
+        # brings an FTP client along when the node has none)
+        svcs = list(s1["services"])
+        idx = next(i for i, x in enumerate(svcs) if x["type"] == "database-service")
+        svcs.insert(idx, {"type": "ftp-client", "options": {"fixing_duration": 9}})
+        s1["services"] = svcs
     if bits.get("nmne"):
         net["nmne_config"] = {"capture_nmne": True, "nmne_capture_keywords": ["DELETE"]}
     if bits["defaults"]:
@@ -224,17 +231,17 @@ def _check_inventory(game, inv):
         check(len(a.action_manager.action_map) == nact or nact == 0, f"agent {ref}: action map size differs")
 
 
-BITS = ["users", "files", "route", "droute", "acl", "listen", "fix", "defaults", "off", "durations", "redeclare", "dnsopt", "nmne"]
+BITS = ["users", "files", "route", "droute", "acl", "listen", "fix", "defaults", "off", "durations", "redeclare", "dnsopt", "nmne", "ftpopt"]
 
 
 def config_inventory(
     b_users: bool, b_files: bool, b_route: bool, b_droute: bool, b_acl: bool, b_listen: bool, b_fix: bool, b_defaults: bool,
-    b_off: bool, b_durations: bool, b_redeclare: bool, acl_pos: int, d_up: int, bw_i: int, perm: bool, b_dnsopt: bool, b_nmne: bool, b_prev: bool,
+    b_off: bool, b_durations: bool, b_redeclare: bool, acl_pos: int, d_up: int, bw_i: int, perm: bool, b_dnsopt: bool, b_nmne: bool, b_prev: bool, b_ftpopt: bool,
 ):
     from primaite.game.game import PrimaiteGame
 
     assume(all_of(rng(acl_pos, 0, 2), rng(d_up, 0, 2), rng(bw_i, 0, 1)))
-    bits = dict(zip(BITS, [b_users, b_files, b_route, b_droute, b_acl, b_listen, b_fix, b_defaults, b_off, b_durations, b_redeclare, b_dnsopt, b_nmne]))
+    bits = dict(zip(BITS, [b_users, b_files, b_route, b_droute, b_acl, b_listen, b_fix, b_defaults, b_off, b_durations, b_redeclare, b_dnsopt, b_nmne, b_ftpopt]))
     bits = {k: bool(v) for k, v in bits.items()}
     pos = pick([0, 11, 23], acl_pos) if bits["acl"] else 0
     dup = pick_int(d_up, 0, 2) if bits["durations"] else 0
@@ -509,10 +516,10 @@ def _check_inventory_shipped(game, inv, f):
 HARNESSES = {
     "config_inventory": {
         "fn": config_inventory,
-        "quick": [{"fixed": {"b_users": u, "b_files": u, "b_dnsopt": u, "b_off": o, "b_route": o, "b_nmne": o, "b_prev": True, "perm": p, "bw_i": 1 if p else 0}, "timeout": 280} for u in (False, True) for o in (False, True) for p in (False, True)],
-        "thorough": [{"fixed": {"b_users": u, "b_files": f, "b_dnsopt": f, "b_off": o, "b_nmne": o, "b_prev": p, "perm": p}, "timeout": 1500} for u in (False, True) for f in (False, True) for o in (False, True) for p in (False, True)],
+        "quick": [{"fixed": {"b_users": u, "b_files": u, "b_dnsopt": u, "b_ftpopt": u, "b_off": o, "b_route": o, "b_nmne": o, "b_prev": True, "perm": p, "bw_i": 1 if p else 0}, "timeout": 280} for u in (False, True) for o in (False, True) for p in (False, True)],
+        "thorough": [{"fixed": {"b_users": u, "b_files": f, "b_dnsopt": f, "b_ftpopt": u, "b_off": o, "b_nmne": o, "b_prev": p, "perm": p}, "timeout": 1500} for u in (False, True) for f in (False, True) for o in (False, True) for p in (False, True)],
         "cover": ["built", "perm"],
-        "bounds": {"quick": "13 presence bits (6 coupled per job; another scenario with the opposite NMNE declaration loaded before), 3 ACL positions (0, 11, 23), 3 durations, 2 bandwidths (one fractional), key-order permutation", "thorough": "all 2^11 presence combinations of the first 11 bits, the dns-client option bit coupled to the files bit"},
+        "bounds": {"quick": "14 presence bits (7 coupled per job; another scenario with the opposite NMNE declaration loaded before), 3 ACL positions (0, 11, 23), 3 durations, 2 bandwidths (one fractional), key-order permutation", "thorough": "all 2^11 presence combinations of the first 11 bits, the dns-client option bit coupled to the files bit"},
     },
     "schedule_inventory": {
         "fn": schedule_inventory,
